@@ -3,16 +3,18 @@ From Slock Require Import Engine.Types Engine.Queues Engine.Timers Engine.Engine
 From Slock Require Import Engine.TimeBase Engine.TimeInv Engine.TimeRun Engine.TimeWhere Engine.TimeThm.
 Import ListNotations.
 Open Scope N_scope.
-Definition c05_demo : list action :=
+Lemma no_panic_nil : ~ has_panic [].
+Proof. intros (site & []). Qed.
+Lemma no_panic_cons e ev : (forall site, e <> EPanic site) -> ~ has_panic ev -> ~ has_panic (e :: ev).
+Proof. intros A B (site & [E|I]); [apply (A site); auto|apply B; exists site; auto]. Qed.
+Definition demo : list action :=
   [AReq 1 (make_cmd true 1 0 101 7 0 5 0 10 0 0 None); AReq 2 (make_cmd true 2 0 102 7 0 3 0 10 0 0 None);
    AAdvance 1; ASweepT; ASweepE; AAdvance 1; ASweepT; ASweepE; AAdvance 1; ASweepT; ASweepE; AAdvance 1; ASweepT; ASweepE].
-Example ex : Forall sweep_ok (run_states (init_db 1000000 1) c05_demo).
+Example ex : Forall sweep_ok (run_states (init_db 1000000 1) demo).
 Proof.
   match goal with |- Forall _ ?x => let y := eval vm_compute in x in replace x with y by (vm_compute; reflexivity) end.
   repeat (apply Forall_cons; [|]); try apply Forall_nil; unfold sweep_ok; cbn [snd fst]; try exact I.
   all: split; [vm_compute; reflexivity|].
-  all: intros (site & J).
-  1: vm_compute in J. 2: vm_compute in J. 3: vm_compute in J. 4: vm_compute in J.
-  1: destruct J. 1: destruct J. 1: destruct J.
-  destruct J as [J|J]; [discriminate J|destruct J].
+  all: match goal with |- ~ has_panic ?x => let y := eval vm_compute in x in replace x with y by (vm_compute; reflexivity) end.
+  all: repeat (apply no_panic_cons; [intros site; discriminate|]); apply no_panic_nil.
 Time Qed.
